@@ -8,6 +8,7 @@ CONSTANTS
   MaxStepFaults = 2
   Vs <- MC_VsFixed
   WithRelease = TRUE
+  MaxSess = 2
 INVARIANT ExactlyOnce
 INVARIANT Intact
 INVARIANT OnlyCommErr
@@ -15,5 +16,6 @@ INVARIANT FrameFits
 INVARIANT OneFaultOk
 INVARIANT TargetOk
 INVARIANT PniInSync
+INVARIANT FirstPni
 VIEW View
 CHECK_DEADLOCK FALSE
